@@ -232,6 +232,16 @@ func scenarios() []scenario {
 			})
 			return e.finish()
 		}},
+		{name: "authenticate-login-2step+noop", allOK: true, body: func() interface{} {
+			// a SASL mechanism with two challenges: the second "+" arrives right after the client
+			// flushed its first answer
+			e := setup("* OK [CAPABILITY IMAP4rev1] ready\r\n")
+			e.caller("A", func(rec func(string, error)) {
+				rec("authenticate", e.c.Authenticate(sasl.NewLoginClient("u", "p")))
+			})
+			e.caller("B", func(rec func(string, error)) { rec("noop", e.c.Noop().Wait()) })
+			return e.finish()
+		}},
 		{name: "drop+2callers", body: func() interface{} {
 			e := setup(greetCaps)
 			e.srv.Drop = true
